@@ -62,7 +62,7 @@ func vfCheckNormalize(r *vfkit.R, in []Range) {
 // TestVfC04Norm: ids(Normalize(sort(rs))) must equal the union of the listed ranges.
 func TestVfC04Norm(t *testing.T) {
 	r := vfkit.New("C04")
-	defer r.Flush(true)
+	defer r.Finish()
 	// every well-formed range over ids 1..M: singles {a} (Hi=0) and [a,b) with b>a+1 (as replyDelMsg builds them)
 	M := r.Pick(8, 10)
 	var all []Range
